@@ -14,7 +14,7 @@ CHECKS = {
          "for every glob over {a . / * \\} up to length 6 (quick) / 8 (thorough) and every pair of globs of length <= 2, the automaton of the regex the real code compiles is compared with the narrow/wide reference automata by exploring the whole reachable product (paths of any length); every path of length <= 3 (5 on a slice) and every counterexample is replayed on the real matches() and through `reuse lint`; plus a complete CLI plumbing slice (31 globs x 2 REUSE.toml locations x 25 files)",
          "glob alphabet of 5 symbols; realistic relative paths; Python's matcher equals NFA acceptance for the constructs used", "4/C05"),
  "C20": ("model_checking", "complete product enumeration against an independent notice model",
-         "all holders x year forms x 10 prefixes through make_copyright_line and the tool's reader; every subset (<=3 quick, <=5 thorough) of a 36-notice universe through merge_copyright_lines; the same through the annotate CLI read back by lint",
+         "all holders x year forms x 10 prefixes through make_copyright_line and the tool's reader; every subset (<=3 quick, <=5 thorough) of a 48-notice universe through merge_copyright_lines; the same through the annotate CLI read back by lint",
          "holder grammar of 40 strings; notices that themselves look like tags/terminators excluded", "4/C20"),
  "C04": ("model_checking", "complete enumeration of the finite precedence product, reference precedence model",
          "every chain of up to three nested REUSE.toml files (13^3 plus decoy-table variants incl. literal-path decoys and directory-name variants; all 49^3 in thorough) x 24 file states, plus dep5 cells, judged per file against refmodel.precedence on the (value, source, source_type) items of lint --json",
@@ -71,6 +71,26 @@ CHECKS = {
 PENDING_REASON = "check not built yet in this session (design in DESIGN.md section 4); not claimed until its machinery exists"
 
 # dimensions added after the table was written (seed rounds 3/4); appended to the level text
+EXTRA4 = {
+ "C02": "; decoration 'terminator glued to the value'; slice D: ordered pairs / triples of licence tags in one comment",
+ "C03": "; Git-ignored paths with non-UTF-8 names; ignored build products inside submodules; ignored siblings of wholly ignored directories; a consumer that cannot finish is a violation",
+ "C05": "; dot-leading names and globs",
+ "C06": "; third representatives (LicenseRef-Unknown-*, LLVM-exception, Nunit)",
+ "C07": "; priors with a tag inside an ignore block (top / after code)",
+ "C08": "; tokens X (code after the terminator), G (5000-character line), U/Q (one-line header quoted in code)",
+ "C09": "; 15-command menu incl. --recursive with a named file",
+ "C10": "; --style on uncommentable and binary files (three runs)",
+ "C11": "; dropping templates x {--no-replace, --merge-copyrights, --skip-existing}; 9 unloadable/unrenderable templates; every unsupported (style, line mode) from a frozen capability table",
+ "C12": "; annotate --skip-existing judged by the same reference scanner",
+ "C13": "; stand-alone extra trees (dep5 paragraph with unparseable synopsis, odd REUSE.toml values)",
+ "C14": "; re-lint history: tree A then tree B (and each tree after its mutated twin) on one path in one process; root names 'subprojects', 'LICENSES', '.reuse', 'x.license', 'LICENSE'; neighbour-identifier licence files",
+ "C15": "; symlinked .license siblings (outside, dangling outside, shared inside), dangling-symlink licence destinations, a foreign directory called LICENSES as cwd",
+ "C16": "; every licence-expression token sequence (<=3 quick / <=4 thorough tokens) x {header, .license, REUSE.toml} x 4 commands; 7 odd states of FILE.license x 3 routes",
+ "C17": "; Copyright variants continuation / dot-separated / trailing blanks (72 field variants); conversion under an ASCII locale (real subprocess)",
+ "C18": "; option spelling aliases; files sharing name and content",
+ "C19": "; project root itself called LICENSES x VCS x --root x cwd",
+ "C20": "; bare (c)-symbol prefix in the universe; licence-less existing headers; several complete notices of one holder in one command; project templates x every holder",
+}
 EXTRA = {
  "C05": "; CLI plumbing slice: 39 globs x REUSE.toml at ./, d/, d/e/ over a tree with prefix-sharing sibling directories (dd/, d2/, d-e/, d/e2/)",
  "C06": "; eleven trees over the whole bundled SPDX list (used and/or provided x txt, md, no extension, subdirectory, ID+.txt)",
@@ -91,7 +111,7 @@ def main():
     for pid in props:
         if pid in CHECKS and os.path.exists(f"{V}/mc/checks/{pid.lower()}.py"):
             cat, tech, text, note, ref = CHECKS[pid]
-            text += EXTRA.get(pid, "")
+            text += EXTRA.get(pid, "") + EXTRA4.get(pid, "")
             checks.append({
                 "property_id": pid,
                 "quick_cmd": f"/venv/bin/python -m mc.run {pid} --tier quick",
